@@ -290,3 +290,51 @@ Proof.
   split; [vm_compute; reflexivity|]. split; [vm_compute; reflexivity|]. split; [vm_compute; reflexivity|].
   eexists. split; [vm_compute; reflexivity|]. split; vm_compute; reflexivity.
 Qed.
+
+(* ---- (c) Resegment and Fragmentify: statements about the DECODED output ----
+   The output pieces are written as the tools write them (CreateFragment(seq, trackID), AddFullSampleToTrack for
+   every sample of the piece, Fragment.Encode with optimisation on or off) and read back (decode at any position,
+   GetFullSamples with the track's trex).  to_full makes an mp4.FullSample of a list-level sample (Size = len(Data),
+   which holds for everything GetFullSamples returns).  For every input whose decode times are contiguous and fit
+   uint64 (times_fit), fewer than 2^32 samples, every chunk duration the tool accepts: the concatenation of what
+   the output segments decode to is the input sample list - bytes, size, duration, flags, composition offset,
+   decode time.  Pieces without samples (only Resegment's first segment can be one, C11_resegment_conserves) are
+   not read (nonempty_pieces): an empty fragment is explored by the search only. *)
+From V.c11 Require Import C11ResegProofs.
+Theorem C11_resegment_end_to_end :
+  forall d (ss : list C11Model.fsample) segs opt T pos0 (tx : C05Model.trex) fes,
+  contiguous_list ss = true -> times_fit ss -> lenN ss < 4294967296 -> tx_track tx = T ->
+  resegment d ss = Ok segs ->
+  Forall2 (fun seg fe => write_segment opt T (map to_full seg) = Ok fe) (nonempty_pieces segs) fes ->
+  Forall (fun fe => seg_guard pos0 fe = true) fes ->
+  exists outs, read_all (read_back tx pos0 []) fes = Ok outs /\ concat outs = map to_full ss.
+Proof. exact resegment_end_to_end. Qed.
+Print Assumptions C11_resegment_end_to_end.
+
+Theorem C11_fragmentify_end_to_end :
+  forall dur (frags : list (list C11Model.fsample)) opt T pos0 (tx : C05Model.trex),
+  contiguous_list (concat frags) = true -> times_fit (concat frags) -> lenN (concat frags) < 4294967296 ->
+  tx_track tx = T ->
+  exists pieces, fragmentify dur frags = Ok pieces /\ Forall (fun p => p <> []) pieces /\
+    forall fes, Forall2 (fun p fe => write_segment opt T (map to_full p) = Ok fe) pieces fes ->
+                Forall (fun fe => seg_guard pos0 fe = true) fes ->
+                exists outs, read_all (read_back tx pos0 []) fes = Ok outs /\
+                             concat outs = map to_full (concat frags).
+Proof. exact fragmentify_end_to_end. Qed.
+Print Assumptions C11_fragmentify_end_to_end.
+
+(* hypotheses satisfiable: the five samples of ex_samples, chunk duration 15: three pieces, written with trun
+   optimisation on and read back *)
+Example C11_resegment_end_to_end_example :
+  contiguous_list ex_samples = true /\ times_fit ex_samples /\
+  exists segs fes, resegment 15 ex_samples = Ok segs /\ nonempty_pieces segs = segs /\ length segs = 3%nat /\
+    Forall2 (fun seg fe => write_segment true 7 (map to_full seg) = Ok fe) segs fes /\
+    forallb (seg_guard 1000) fes = true /\
+    (match read_all (read_back (C05Model.mkTrex 7 1 2 3) 1000 []) fes with Ok o => Some (concat o) | _ => None end)
+    = Some (map to_full ex_samples).
+Proof.
+  split; [vm_compute; reflexivity|]. split; [repeat constructor|].
+  eexists. eexists. split; [vm_compute; reflexivity|]. split; [reflexivity|]. split; [reflexivity|].
+  split; [repeat (apply Forall2_cons; [vm_compute; reflexivity|]); apply Forall2_nil|].
+  split; vm_compute; reflexivity.
+Qed.
